@@ -302,6 +302,8 @@ fn allowed_features() -> gen::problem::Features {
     let mut allowed = gen::problem::Features::all();
     allowed.req_breaks = false;
     allowed.clustering = true;
+    allowed.recharges = true;
+    allowed.time_dependent = true;
     allowed
 }
 
@@ -452,6 +454,9 @@ impl CrashScenario {
         }
         if base.problem["plan"].get("clustering").is_some() {
             sig.push("clustering");
+        }
+        if base.matrices.iter().any(|m| m.get("timestamp").is_some()) {
+            sig.push("time-dependent");
         }
         if base.problem["plan"].get("relations").is_some() {
             sig.push("relations");
